@@ -155,6 +155,8 @@ def call_spec_fn(self, name, e, st):
         return bool_val(v.z >= self.old_st.next_ref)
     if name == "same":    # same(a, b): reference identity
         a, b = self.ev1(e.args[0], st)[0], self.ev1(e.args[1], st)[0]
+        if isinstance(a, Unknown) or isinstance(b, Unknown):
+            return bool_val(fresh("unk", z3.BoolSort()))      # e.g. last_arg of a call that did not happen on this path
         return bool_val(a.z == b.z)
     if name in ("last_result", "last_arg", "called_after"):
         q = e.args[0].value
